@@ -39,13 +39,17 @@ P = {
   "Static decision for every byte string of every length: the accept sets of SetCompressedBytes, SetUncompressedBytes, SetBytes, NewPointFromBytes and NewPointFromCoords (extracted by abstract interpretation on a symbolic input of symbolic length, as propositional formulas over atoms such as len = 33, src[0] = 2, x >= p, x^3+7 is a square, y^2 = x^3+7) are equivalent to the SEC 1 rule set; the stored point for prefixes 2/3/4/0 is (x, root with the parity of the prefix, 1) / (x,y,1) / (0,1,0) with the validity flag set; on every rejecting valuation the receiver's fields keep their initial symbols and the returned pointer is nil; the three encoders return 0x00 for Z = 0 and prefix || Bytes(X/Z) [|| Bytes(Y/Z)] otherwise (compressed prefix = 2 + parity(Y/Z)); RecoverPoint decided for every recovery id (0..3 concretely, >= 4 symbolically): x = r (+ n), accepted iff [x >= n] = bit 1, x mod n = r, x^3+7 a square, parity = bit 0; SplitUncompressedPoint = (b[1:33], b[64]&1), panics unless len = 65.",
   "Trusted: C01 (field specification incl. sqrt_ratio returning a root exactly when one exists), C02, C03-5 (rescale), the propositional comparison, go/ssa, the checker. Encode/decode round-trip identities follow from the decided clauses and C01's canonical Bytes; they are derived, not separately computed.",
   "abstract interpretation over go/ssa against the field specification; accept-set formulas and stored values compared as normal forms under every consistent valuation of the branch atoms"),
+ "C11": ("other",
+  "Static decision for every digest, r, s and recovery id 0..255: RecoverPublicKey returns a key exactly when r,s != 0, the reconstruction of R succeeds, len(h) >= 32 and Q is not the identity, and then the key holds Q = (-e/r)*G + (s/r)*R (terms compared as normal forms in the Z/n-module) with its cached encoding; no key object accompanies an error; the defensive panic is unreachable. R reconstruction (RecoverPoint) decided for ids 0..3 concretely and >= 4 symbolically: x = r (+ n when bit 1), accepted iff [x >= n] = bit 1, x mod n = r, x^3 + 7 is a square; y parity = bit 0.",
+  "Trusted: C02, C06, C16, C01 (sqrt). 'Every returned Q verifies (r,s)' and 'the id emitted by Sign recovers the signer' are algebraic consequences (Q = r^-1(sR - eG) <=> R = (e/s)G + (r/s)Q; C08 gives the id formula), recorded as derived, not separately computed.",
+  "abstract interpretation over go/ssa against lower-layer specifications; accept-set formulas and values compared as normal forms"),
  "C07": ("other",
   "Static decision for all keys, digests and signatures: the accept sets of secec.verify (public- and private-key arms), VerifyRaw, PublicKey.Verify and bitcoin.VerifyASN1, extracted by abstract interpretation as propositional formulas over term atoms, are equivalent to the SEC 1 4.1.4 predicate (r,s != 0; len(h) >= 32; e = leftmost 32 bytes mod n; u1 = e/s, u2 = r/s; R = u1*G + u2*Q not the identity; x(R) mod n = r) plus the option rules: digest length = hash size (hash identifiers unset/SHA-224/256/384/512), parser chosen by Encoding (0,1,2; every other int rejected), s <= (n-1)/2 when RejectMalleable, recoverable signatures accepted iff the recovered key's encoding equals the verifier's; VerifyASN1 = BIP-66 envelope && Verify(sig minus last byte, {SHA256, ASN.1, RejectMalleable}); the Bitcoin options object is never written; verify writes none of its operands; no panic reachable.",
   "Trusted: C02, C05, C06, C11, C12, C16 (lower-layer specifications), the propositional comparison in internal/rules/boolform.go, go/ssa, the checker. Invalid crypto.Hash identifiers (Size() panics inside the standard library) are outside the property.",
   "abstract interpretation over go/ssa against lower-layer specifications; accept-set formulas compared as propositional normal forms"),
 }
 
-CLAIMED = ["C01", "C02", "C03", "C04", "C05", "C06", "C07", "C16", "C19"]
+CLAIMED = ["C01", "C02", "C03", "C04", "C05", "C06", "C07", "C11", "C16", "C19"]
 
 REASON_PENDING = "check under construction in this session (see DESIGN.md section 2); not yet claimed"
 
